@@ -35,7 +35,7 @@ SPEC = {
         "the tz database is data: the harness reports the offset Go's time package gives for (zone, instant); the driver checks the model's civil fields against Go's for every (instant, zone)",
         "YAML/JSON libraries and strings.ToLower on ASCII are trusted; generated range strings are ASCII (plus one non-ASCII digit string in the invalid pool)",
         "time.LoadLocation's verdict on a location name is an input (locok) to the model's validation",
-        "the model's month length is the calendar's; the pinned code evaluates it in the interval's location (finding F9, fixes/daysInMonth.diff)",
+        "the model's month length is the calendar's; the pinned code evaluates it in the interval's location (finding F12, fixes/F12.diff)",
         "gate theorems: route id, group key and now are in the context and every listed name is configured (config.Load guarantees it); other contexts are compared against the model only",
     ],
 }
